@@ -12,7 +12,7 @@ C_ORTH = 500.0
 RANK_REL = 1e-10
 REP_REL = 1e-6
 NEAR_REL = 0.05
-ORTH_FLOOR = 1e-9   # allowance for a chance near-coincidence of two singular values of the random compression
+ORTH_FLOOR = 1e-8   # allowance for a chance near-coincidence of two singular values of the random compression
 
 
 @st.composite
